@@ -17,12 +17,15 @@ import (
 	"sort"
 	"strings"
 	"sync"
+	"time"
 
 	"github.com/brocaar/lorawan"
+	"github.com/brocaar/lorawan/airtime"
 	"github.com/brocaar/lorawan/applayer/clocksync"
 	"github.com/brocaar/lorawan/applayer/multicastsetup"
 	"github.com/brocaar/lorawan/backend/joinserver"
 	"github.com/brocaar/lorawan/band"
+	"github.com/brocaar/lorawan/gps"
 	vs "github.com/brocaar/lorawan/verifsync"
 
 	"verifmc/props"
@@ -60,6 +63,8 @@ func main() {
 		results = runC14(*tier, &sum)
 	case "C09":
 		results = runC09(*tier, &sum)
+	case "C20":
+		results = runC20(*tier, &sum)
 	default:
 		sum.Error = "no schedule scenarios for " + *prop
 	}
@@ -524,6 +529,60 @@ func runC09(tier string, sum *props.SchedSummary) []vs.Result {
 	return []vs.Result{r1, r2}
 }
 
+// ---------------------------------------------------------------- C20
+
+// runC20: the pure conversion functions called from several threads at once,
+// starting from a fresh process (the first calls of a process are the ones a
+// lazily built table would race on). Expected values are published constants.
+func runC20(tier string, sum *props.SchedSummary) []vs.Result {
+	type pair struct {
+		gpsSeconds int64
+		utc        string
+	}
+	known := []pair{{0, "1980-01-06T00:00:00Z"}, {630720013, "2000-01-01T00:00:00Z"}, {1167264018, "2017-01-01T00:00:00Z"}}
+	body := func(k pair) func() {
+		return func() {
+			u := time.Time(gps.NewTimeFromTimeSinceGPSEpoch(time.Duration(k.gpsSeconds) * time.Second))
+			tt, _ := time.Parse(time.RFC3339, k.utc)
+			d := gps.Time(tt).TimeSinceGPSEpoch()
+			at, err := airtime.CalculateLoRaAirtime(13, 12, 125, 8, airtime.CodingRate45, true, true)
+			vs.Observe(fmt.Sprintf("%s %d %v %v", u.UTC().Format(time.RFC3339), int64(d/time.Second), at, err))
+		}
+	}
+	want := func(k pair) string {
+		return fmt.Sprintf("%s %d %v %v", k.utc, k.gpsSeconds, 1155072*time.Microsecond, nil)
+	}
+	sc := vs.Scenario{
+		Name:  "GPS time conversions and airtime from three threads (first calls of the process included)",
+		Setup: func() {},
+		Threads: func() []vs.Thread {
+			var ts []vs.Thread
+			for i, k := range known {
+				ts = append(ts, vs.Thread{Name: fmt.Sprintf("T%d", i+1), Body: body(k)})
+			}
+			return ts
+		},
+		Check: func(x *vs.Execution) []vs.Problem {
+			var ps []vs.Problem
+			for i, k := range known {
+				if o := x.Obs[fmt.Sprintf("T%d", i+1)]; len(o) != 1 || o[0] != want(k) {
+					ps = append(ps, vs.Problem{Key: "conversion/result-depends-on-schedule", What: fmt.Sprintf("thread %d observed %q, published values give %q", i+1, o, want(k))})
+				}
+			}
+			return ps
+		},
+	}
+	budget := 200000
+	bound := 3
+	if tier == "thorough" {
+		bound, budget = 5, 1000000
+	}
+	r1 := vs.Explore(sc, bound, budget)
+	sc.Name += " [all interleavings]"
+	r2 := vs.ExploreAll(sc, budget)
+	return []vs.Result{r1, r2}
+}
+
 // ---------------------------------------------------------------- C14
 
 // c14Shared: one band object per execution, used by several threads through its
@@ -648,6 +707,15 @@ func freeRun(prop string, n int) {
 					d := d
 					bodies = append(bodies, func() { c14Plan(b, d) })
 				}
+			}
+		case "C20":
+			for i := int64(0); i < 3; i++ {
+				i := i
+				bodies = append(bodies, func() {
+					gps.NewTimeFromTimeSinceGPSEpoch(time.Duration(1167264018+i) * time.Second)
+					gps.Time(time.Unix(1483228800+i, 0)).TimeSinceGPSEpoch()
+					airtime.CalculateLoRaAirtime(13, 12, 125, 8, airtime.CodingRate48, i%2 == 0, true)
+				})
 			}
 		case "C16":
 			kinds := c16Kinds()
